@@ -164,7 +164,126 @@ func calleesOf(prog *ssa.Program, c *ssa.CallCommon) ([]*ssa.Function, bool) {
 	case *ssa.Builtin:
 		return nil, false
 	}
+	// a call through a function value: closed world for the signatures declared with "closedfunc" in a contract file
+	// (every function value of such a signature is created inside the module), dynamic otherwise
+	if globalSpecs != nil {
+		sig := c.Signature()
+		for _, w := range globalSpecs.closedFuncs {
+			if ws := closedSigOf(prog, w); ws != nil && types.Identical(stripRecv(sig), ws) {
+				var out []*ssa.Function
+				for _, f := range addressTaken(prog) {
+					if types.Identical(stripRecv(f.Signature), ws) {
+						out = append(out, f)
+					}
+				}
+				return out, false
+			}
+		}
+	}
 	return nil, true // dynamic
+}
+
+func stripRecv(s *types.Signature) *types.Signature {
+	if s.Recv() == nil {
+		return s
+	}
+	return types.NewSignatureType(nil, nil, nil, s.Params(), s.Results(), s.Variadic())
+}
+
+var closedSigCache = map[string]*types.Signature{}
+
+// closedSigOf: the signature (without receiver) of the witness function named in a closedfunc directive ("pkg.Display")
+func closedSigOf(prog *ssa.Program, witness string) *types.Signature {
+	if s, ok := closedSigCache[witness]; ok {
+		return s
+	}
+	var res *types.Signature
+	for fn := range allModuleFuncs(prog) {
+		if fn.Pkg != nil && fn.Pkg.Pkg.Name()+"."+funcDisplay(fn) == witness {
+			res = stripRecv(fn.Signature)
+		}
+	}
+	closedSigCache[witness] = res
+	return res
+}
+
+var moduleFuncsCache map[*ssa.Function]bool
+
+func allModuleFuncs(prog *ssa.Program) map[*ssa.Function]bool {
+	if moduleFuncsCache != nil {
+		return moduleFuncsCache
+	}
+	moduleFuncsCache = map[*ssa.Function]bool{}
+	var add func(f *ssa.Function)
+	add = func(f *ssa.Function) {
+		if f == nil || moduleFuncsCache[f] {
+			return
+		}
+		moduleFuncsCache[f] = true
+		for _, a := range f.AnonFuncs {
+			add(a)
+		}
+	}
+	for _, p := range prog.AllPackages() {
+		if !strings.HasPrefix(p.Pkg.Path(), modulePath) {
+			continue
+		}
+		for _, m := range p.Members {
+			switch m := m.(type) {
+			case *ssa.Function:
+				add(m)
+			case *ssa.Type:
+				for _, t := range []types.Type{m.Type(), types.NewPointer(m.Type())} {
+					ms := prog.MethodSets.MethodSet(t)
+					for i := 0; i < ms.Len(); i++ {
+						add(prog.MethodValue(ms.At(i)))
+					}
+				}
+			}
+		}
+	}
+	return moduleFuncsCache
+}
+
+var addressTakenCache []*ssa.Function
+
+// addressTaken: module functions used as values (closures, method values, plain function values)
+func addressTaken(prog *ssa.Program) []*ssa.Function {
+	if addressTakenCache != nil {
+		return addressTakenCache
+	}
+	seen := map[*ssa.Function]bool{}
+	for f := range allModuleFuncs(prog) {
+		for _, b := range f.Blocks {
+			for _, in := range b.Instrs {
+				if mc, ok := in.(*ssa.MakeClosure); ok {
+					if g, ok := mc.Fn.(*ssa.Function); ok {
+						seen[g] = true
+					}
+				}
+				var callee ssa.Value
+				if c, ok := in.(ssa.CallInstruction); ok && !c.Common().IsInvoke() {
+					callee = c.Common().Value
+				}
+				for _, op := range in.Operands(nil) {
+					if op == nil || *op == nil || *op == callee {
+						continue
+					}
+					if g, ok := (*op).(*ssa.Function); ok {
+						seen[g] = true
+					}
+				}
+			}
+		}
+	}
+	// package-level initialisers (composite literals of function tables) live in init functions, covered above
+	for f := range seen {
+		addressTakenCache = append(addressTakenCache, f)
+	}
+	if addressTakenCache == nil {
+		addressTakenCache = []*ssa.Function{}
+	}
+	return addressTakenCache
 }
 
 func mayWriteKeys(prog *ssa.Program, fn *ssa.Function) map[string]hkey {
